@@ -491,7 +491,6 @@ func tableKeys(s string) []string {
 var (
 	rxDisplay       = core.RxName(`(?i)(?:^|[\s;])display\s*:\s*([\w-]+)\s*(?:!\s*important\s*)?(?:;|$)`)
 	rxVisibility    = core.RxName(`(?i)(?:^|[\s;])visibility\s*:\s*(:?hidden|collapse)`)
-	rxSrcset        = core.RxName(`(?i)(\S+)((?:\s+[\d.]+[xwh])*)(\s*(?:,|$))`)
 	rxTitleSep      = core.RxName(`(?i) [\|\-\\/>»] `)
 	rxUnlikely      = core.RxName(`(?i)-ad-|ai2html|banner|breadcrumbs|combx|comment|community|cover-wrap|disqus|extra|footer|gdpr|header|legends|menu|related|remark|replies|rss|shoutbox|sidebar|skyscraper|social|sponsor|supplemental|ad-break|agegate|pagination|pager|popup|yom-remote`)
 	rxOkMaybe       = core.RxName(`(?i)and|article|body|column|content|main|shadow`)
